@@ -96,16 +96,26 @@ def frame(df):
 
 
 # ---------------------------------------------------------------- OrderBook
-def book_view(b):
-    orders = b.get_orders()
-    trades = b.get_trades()
+def ordered(thunks, order):
+    """Evaluate the getters in the given order (0 = as listed, 1 = reversed): what a getter returns must not depend on which
+    other getters were called before it."""
+    items = list(thunks)
+    if order:
+        items = items[::-1]
+    got = {k: f() for k, f in items}
+    return {k: got[k] for k, _ in thunks}
+
+
+def book_view(b, order=0):
+    g = ordered([
+        ("orders_raw", lambda: b.get_orders()), ("trades_raw", lambda: b.get_trades()),
+        ("bid_ask", lambda: tr(b.bid_ask())), ("bid_vol", lambda: tr(b.bid_vol())), ("ask_vol", lambda: tr(b.ask_vol())),
+        ("best_bid_vol", lambda: tr(b.best_bid_vol())), ("best_ask_vol", lambda: tr(b.best_ask_vol())),
+        ("best_bid_vol_and_orders", lambda: tr(b.best_bid_vol_and_orders())),
+        ("best_ask_vol_and_orders", lambda: tr(b.best_ask_vol_and_orders()))], order)
+    orders, trades = g.pop("orders_raw"), g.pop("trades_raw")
     return {
-        "scalars": {
-            "bid_ask": tr(b.bid_ask()), "bid_vol": tr(b.bid_vol()), "ask_vol": tr(b.ask_vol()),
-            "best_bid_vol": tr(b.best_bid_vol()), "best_ask_vol": tr(b.best_ask_vol()),
-            "best_bid_vol_and_orders": tr(b.best_bid_vol_and_orders()),
-            "best_ask_vol_and_orders": tr(b.best_ask_vol_and_orders()),
-        },
+        "scalars": g,
         "statuses": [tr(b.order_status(i)) for i in range(len(orders))],
         "orders": tr(orders), "trades": tr(trades),
         "order_frame": frame(dp.orders_to_dataframe(orders)),
@@ -244,11 +254,18 @@ def replay_book_line(cfg, idx, v, S):
         if p:
             problem = "step %d (%s): %s" % (k, l["op"], p)
             break
+        if k + 1 < len(path):
+            try:
+                for b in run.books:
+                    book_view(b, (k + idx) % 2)     # reads between the calls must be harmless
+            except BaseException as e:
+                problem = "reading after step %d raised %s: %s" % (k, type(e).__name__, str(e)[:200])
+                break
     got = None
     if problem is None:
         for bi, b in enumerate(run.books):
             try:
-                got = book_view(b)
+                got = book_view(b, (len(path) + idx) % 2)
             except BaseException as e:
                 problem = "reading copy %d raised %s: %s" % (bi, type(e).__name__, str(e)[:200])
                 break
@@ -293,40 +310,40 @@ def replay_book_line(cfg, idx, v, S):
 
 
 # ---------------------------------------------------------------- StepEnv / StepEnvNumpy
-def env_view(e):
-    orders = e.get_orders()
-    trades = e.get_trades()
-    md = e.get_market_data()
-    return {
-        "time": tr(e.time), "bid_ask": tr(e.bid_ask), "bid_vol": tr(e.bid_vol), "ask_vol": tr(e.ask_vol),
-        "best_bid_vol": tr(e.best_bid_vol), "best_ask_vol": tr(e.best_ask_vol),
-        "best_bid_vol_and_orders": tr(e.best_bid_vol_and_orders), "best_ask_vol_and_orders": tr(e.best_ask_vol_and_orders),
-        "trade_vol": tr(e.trade_vol),
+def env_view(e, order=0):
+    g = ordered([
+        ("orders_raw", lambda: e.get_orders()), ("trades_raw", lambda: e.get_trades()), ("md_raw", lambda: e.get_market_data()),
+        ("time", lambda: tr(e.time)), ("bid_ask", lambda: tr(e.bid_ask)), ("bid_vol", lambda: tr(e.bid_vol)), ("ask_vol", lambda: tr(e.ask_vol)),
+        ("best_bid_vol", lambda: tr(e.best_bid_vol)), ("best_ask_vol", lambda: tr(e.best_ask_vol)),
+        ("best_bid_vol_and_orders", lambda: tr(e.best_bid_vol_and_orders)), ("best_ask_vol_and_orders", lambda: tr(e.best_ask_vol_and_orders)),
+        ("trade_vol", lambda: tr(e.trade_vol)),
+        ("prices", lambda: tr(e.get_prices())), ("volumes", lambda: tr(e.get_volumes())),
+        ("touch_volumes", lambda: tr(e.get_touch_volumes())), ("touch_order_counts", lambda: tr(e.get_touch_order_counts())),
+        ("trade_volumes", lambda: tr(e.get_trade_volumes())),
+        ("l1_array", lambda: tr(e.level_1_data_array())), ("l2_array", lambda: tr(e.level_2_data_array()))], order)
+    orders, trades, md = g.pop("orders_raw"), g.pop("trades_raw"), g.pop("md_raw")
+    g.update({
         "statuses": [tr(e.order_status(i)) for i in range(len(orders))],
         "orders": tr(orders), "trades": tr(trades),
-        "prices": tr(e.get_prices()), "volumes": tr(e.get_volumes()),
-        "touch_volumes": tr(e.get_touch_volumes()), "touch_order_counts": tr(e.get_touch_order_counts()),
-        "trade_volumes": tr(e.get_trade_volumes()),
-        "l1_array": tr(e.level_1_data_array()), "l2_array": tr(e.level_2_data_array()),
         "market_data": {k: tr(a) for k, a in md.items()},
         "order_frame": frame(dp.orders_to_dataframe(orders)),
         "trade_frame": frame(dp.trades_to_dataframe(trades)),
-    }
+    })
+    return g
 
 
 NUMPY_KEYS = ("orders", "trades", "l1_array", "l2_array", "market_data", "order_frame", "trade_frame")
 
 
-def numpy_view(e):
-    orders = e.get_orders()
-    trades = e.get_trades()
-    return {
-        "orders": tr(orders), "trades": tr(trades),
-        "l1_array": tr(e.level_1_data()), "l2_array": tr(e.level_2_data()),
-        "market_data": {k: tr(a) for k, a in e.get_market_data().items()},
-        "order_frame": frame(dp.orders_to_dataframe(orders)),
-        "trade_frame": frame(dp.trades_to_dataframe(trades)),
-    }
+def numpy_view(e, order=0):
+    g = ordered([
+        ("orders_raw", lambda: e.get_orders()), ("trades_raw", lambda: e.get_trades()),
+        ("l1_array", lambda: tr(e.level_1_data())), ("l2_array", lambda: tr(e.level_2_data())),
+        ("market_data", lambda: {k: tr(a) for k, a in e.get_market_data().items()})], order)
+    orders, trades = g.pop("orders_raw"), g.pop("trades_raw")
+    g.update({"orders": tr(orders), "trades": tr(trades),
+              "order_frame": frame(dp.orders_to_dataframe(orders)), "trade_frame": frame(dp.trades_to_dataframe(trades))})
+    return g
 
 
 def bad_call_env(e, l):
@@ -347,7 +364,7 @@ def bad_call_env(e, l):
 
 def run_env(cfg, path, excs, seed):
     """-> (view, problem)"""
-    e = core.StepEnv(seed, 0, cfg["tick"], cfg["step"], cfg["trading"])
+    e = core.StepEnv(seed, cfg.get("t0", 0), cfg["tick"], cfg["step"], cfg["trading"])
     for k, l in enumerate(path):
         op = l["op"]
         if op == "submit":
@@ -372,14 +389,18 @@ def run_env(cfg, path, excs, seed):
             return None, "step %d (%s): %s" % (k, op, prob)
         if op == "submit" and l["k"] == "new" and excs[k] == "none" and v != l.get("ret"):
             return None, "step %d: place_order returned id %r but the specification says %r" % (k, v, l.get("ret"))
-    return env_view(e), None
+        # every getter is also read between the calls, in alternating order (the values are compared on the line of that prefix;
+        # here the reads only have to be harmless: a getter may not change what later calls show)
+        if k + 1 < len(path):
+            env_view(e, (k + seed) % 2)
+    return env_view(e, len(path) % 2), None
 
 
 def run_numpy(cfg, path, excs, seed, batched):
     """The same path through StepEnvNumpy.  batched: all submissions between two steps go into ONE
     submit_instructions call (with no-op rows mixed in); otherwise one call per submission through
     submit_limit_orders / submit_cancellations."""
-    e = core.StepEnvNumpy(seed, 0, cfg["tick"], cfg["step"], cfg["trading"])
+    e = core.StepEnvNumpy(seed, cfg.get("t0", 0), cfg["tick"], cfg["step"], cfg["trading"])
     u32, u64 = np.uint32, np.uint64
 
     def flush(rows):
@@ -432,6 +453,7 @@ def run_numpy(cfg, path, excs, seed, batched):
             if p:
                 return None, "step %d: %s" % (k, p)
             if op == "step":
+                numpy_view(e, k % 2)      # reads before the step must be harmless
                 e.step()
             elif op == "enable":
                 e.enable_trading()
@@ -442,7 +464,7 @@ def run_numpy(cfg, path, excs, seed, batched):
     p = flush(rows)
     if p:
         return None, "final flush: %s" % p
-    return numpy_view(e), None
+    return numpy_view(e, len(path) % 2), None
 
 
 def replay_env_line(cfg, idx, v, S):
@@ -496,7 +518,7 @@ def replay_env_line(cfg, idx, v, S):
                     elif cfg.get("xfile") and idx % max(cfg.get("xevery", 1), 1) == 0 and S["xcases"] < cfg.get("xmax", 400):
                         with open(cfg["xfile"] + ".%d" % os.getpid(), "a") as f:
                             f.write(json.dumps({"path": path, "seed": seed, "cands": [outs[i]["sched"] for i in members],
-                                                "cfg": {"kind": "env", "levels": 10, "ticks": [cfg["tick"]], "step": cfg["step"], "trading": cfg["trading"]}}) + "\n")
+                                                "cfg": {"kind": "env", "levels": 10, "ticks": [cfg["tick"]], "step": cfg["step"], "trading": cfg["trading"], "t0": cfg.get("t0", 0)}}) + "\n")
                         S["xcases"] += 1
         if prob:
             S["n_mismatch"] += 1
